@@ -76,6 +76,9 @@ func (fx *fnExec) callMods(in ssa.CallInstruction, allocs map[*ssa.Alloc]bool, k
 			continue
 		}
 		if c != nil && !c.Inline && !c.Lemma {
+			if c.HavocAll {
+				ex.havocAllKeys(fx, c, callee, keys)
+			}
 			ex.contractModKeys(fx, c, callee, keys)
 			continue
 		}
